@@ -240,6 +240,13 @@ static void cpu_run(const std::vector<std::string> &plan, Child &c) {
     if (!t->executable && mexec)
       c.violation("executable", strf("supported-backend-not-executable:%s", tn),
                   strf("target %s is supported by the presented CPU/OS but is not marked executable", tn));
+    // only the feature bits this model knows are judged: a flag bit introduced later is not "a feature the CPU lacks"
+    const unsigned sse_known = ORC_TARGET_SSE_SSE2 | ORC_TARGET_SSE_SSE3 | ORC_TARGET_SSE_SSSE3 | ORC_TARGET_SSE_SSE4_1 | ORC_TARGET_SSE_SSE4_2 |
+                               ORC_TARGET_SSE_SSE4A | ORC_TARGET_SSE_SSE5 | ORC_TARGET_AVX_AVX | ORC_TARGET_AVX_AVX2;
+    const unsigned mmx_known = ORC_TARGET_MMX_MMX | ORC_TARGET_MMX_MMXEXT | ORC_TARGET_MMX_3DNOW | ORC_TARGET_MMX_3DNOWEXT | ORC_TARGET_MMX_SSSE3 |
+                               ORC_TARGET_MMX_SSE4_1 | ORC_TARGET_MMX_SSE4_2;
+    if (name == "sse" || name == "avx") flags &= sse_known | m.sse_allowed;
+    if (name == "mmx") flags &= mmx_known | m.mmx_allowed;
     if (name == "sse" || name == "avx") {
       if (flags & ~m.sse_allowed)
         c.violation("flags", strf("flags-claim-absent-feature:%s", tn),
